@@ -195,4 +195,9 @@ def run(ctx: Ctx):
             run_instances(ctx, s, insts)
             done += 1000
         s.finish()
+    from ..rules_common import reuse_stream
+
+    s = Stream(ctx, "re-used rule objects: second application vs a fresh rule object")
+    reuse_stream(ctx, s, ctx.size(800, 10000))
+    s.finish()
     return RULE
